@@ -2483,6 +2483,10 @@ func (data *Data) newShardGroup(rpi *RetentionPolicyInfo, timestamp time.Time, e
 		// Shard group range is [start, end) so add one to the max time.
 		sgi.EndTime = time.Unix(0, models.MaxNanoTime+1)
 	}
+	if sgi.StartTime.Before(time.Unix(0, models.MinNanoTime)) {
+		// the first cell of the time domain starts before what int64 nanoseconds can hold: no point lies there
+		sgi.StartTime = time.Unix(0, models.MinNanoTime).UTC()
+	}
 	return &sgi
 }
 
@@ -2553,6 +2557,9 @@ func (data *Data) createIndexGroupUntil(rpi *RetentionPolicyInfo, timestamp, min
 	}
 	if igi.EndTime.After(time.Unix(0, models.MaxNanoTime)) {
 		igi.EndTime = time.Unix(0, models.MaxNanoTime+1)
+	}
+	if igi.StartTime.Before(time.Unix(0, models.MinNanoTime)) {
+		igi.StartTime = time.Unix(0, models.MinNanoTime).UTC()
 	}
 	igi.EngineType = engineType
 	igi.Indexes = make([]IndexInfo, ptNum)
